@@ -197,27 +197,112 @@ def check_block_deser(ctx, oid="C04.4"):
     R.check(oid, "TILE", fb, "header = first 80 bytes", hdr_ok, "block header is not block[:80]")
 
 
-def check_mine_block(ctx, oid="C04.4"):
-    R = ctx.R
-    # mine_block reads ids from tx_deser's result
+MINE_OPAQUE = OPAQUE | {"bits.tx.tx_deser", "bits.blockchain.merkle_root", "bits.blockchain.block_header", "bits.tx.coinbase_tx",
+                        "bits.script.utils.scriptpubkey", "bits.integrations.median_time", "bits.blockchain.target_threshold",
+                        "bits.blockchain.block_ser", "bits.rpc.rpc_method", "bits.crypto.hash256"}
+
+
+def mine_scenario(ctx, n):
+    """mine_block evaluated against a scripted node: the RPC answers are arbitrary values of the documented shapes and the
+    mempool holds exactly n transactions raw0 .. raw(n-1), so every list the function builds has a known structure."""
     fm = ctx.fn("bits.integrations.mine_block")
-    evm = ctx.evaluator(opaque=OPAQUE | {"bits.tx.tx_deser", "bits.blockchain.merkle_root", "bits.blockchain.block_header",
-                                         "bits.tx.coinbase_tx", "bits.script.utils.scriptpubkey", "bits.integrations.median_time",
-                                         "bits.blockchain.target_threshold", "bits.blockchain.block_ser", "bits.rpc.rpc_method"})
-    sm = evm.run(fm)
-    want = {"txid": False, "wtxid": False}
-    leaf_lists = {}
-    for lp in sm.loops:
-        if lp.func != fm.qualname:
+    raws = [P("raw%d" % i, tm.STR) for i in range(n)]
+
+    def rpc(ev, b, fr, node):
+        m = b.get("method")
+        params = b.get("params") or ()
+        if m == "getdifficulty":
+            return P("difficulty", tm.FLOAT)
+        if m == "getblockcount":
+            return P("height", tm.INT)
+        if m in ("getblockhash", "getbestblockhash"):
+            return P("blockhash", tm.STR)
+        if m == "getblock":
+            return {"time": P("time", tm.INT), "bits": P("bits", tm.STR), "hash": P("hash", tm.STR), "mediantime": P("mediantime", tm.INT),
+                    "height": P("height", tm.INT), "previousblockhash": P("previousblockhash", tm.STR)}
+        if m == "getrawmempool":
+            return [P("txid%d" % i, tm.STR) for i in range(n)]
+        if m == "getrawtransaction" and len(params) >= 1:
+            for i in range(n):
+                if tm.veq(params[0], P("txid%d" % i, tm.STR)):
+                    return raws[i]
+        return NotImplemented
+    ev = ctx.evaluator(opaque=MINE_OPAQUE, extra_prims={"bits.rpc.rpc_method": rpc})
+    s = ev.run(fm)
+    txs = [tm.unhex(r) for r in raws]
+
+    def ident(tx, key):
+        return [tm.unhex(T("idx", (T("proj", (tm.app("bits.tx.tx_deser", [tx] + extra, ty=tm.TUPLE), 0)), key))) for extra in ([], [False])]
+    return s, txs, ident
+
+
+def _disjuncts(c):
+    if isinstance(c, T) and c.op == "lor":
+        return [d for x in c.args for d in _disjuncts(x)]
+    if isinstance(c, T) and c.op == "not" and isinstance(c.args[0], T) and c.args[0].op == "land":
+        return [d for x in c.args[0].args for d in _disjuncts(tm.lnot(x))]  # De Morgan
+    return [c]
+
+
+def _same_disjunction(a, b):
+    da, db = _disjuncts(a), _disjuncts(b)
+    return len(da) == len(db) and all(any(tm.veq(x, y) for y in db) for x in da) and all(any(tm.veq(x, y) for y in da) for x in db)
+
+
+def _one_of(v, cands):
+    return any(tm.veq(v, c) for c in cands)
+
+
+def check_mine_block(ctx, oid="C04.4"):
+    """For mempools of 0..3 transactions: the block carries [coinbase] + the mempool transactions in order; the header commits to
+    merkle_root of exactly those transactions' txids as tx_deser reports them; the witness tree is the zero leaf + their wtxids;
+    the coinbase commits to SHA256d(witness root || reserved) exactly when some txid differs from its wtxid."""
+    R = ctx.R
+    fm = ctx.fn("bits.integrations.mine_block")
+    for n in ((0, 1, 2, 3) if ctx.thorough else (0, 1, 2)):
+        s, txs, ident = mine_scenario(ctx, n)
+        label = "mempool of %d" % n
+        ser = [c for c in s.calls if c[0] == "bits.blockchain.block_ser"]
+        cbs = [c for c in s.calls if c[0] == "bits.tx.coinbase_tx"]
+        okb = len(ser) == 1 and len(cbs) == 1
+        txns = rules.unfz(ser[0][1][1]) if okb and len(ser[0][1]) > 1 else None
+        okb = okb and isinstance(txns, (list, tuple)) and len(txns) == n + 1 and isinstance(txns[0], T) and txns[0].op == "app" and txns[0].args[0] == "bits.tx.coinbase_tx" and \
+            all(tm.veq(a, b) for a, b in zip(txns[1:], txs))
+        R.check(oid, "THREAD", fm, label + ": block = [coinbase] + the mempool transactions, in mempool order", okb,
+                "the serialised block's transaction list is %s" % (tm.show(txns)[:200]), example="a mempool with %d transactions" % n)
+        if not okb:
             continue
-        for var, val in lp.body.items():
-            for key in want:
-                pat = tm.unhex(T("idx", (T("proj", (tm.app("bits.tx.tx_deser", [W("buf"), W("raw")], ty=tm.TUPLE), 0)), key)))
-                acc = T("acc", (var, lp.depth), tm.LIST)
-                if isinstance(val, T) and val.op == "lcat" and len(val.args) == 2 and tm.veq(val.args[0], acc) and \
-                        match(("#list", pat), val.args[1]) is not None:
-                    leaf_lists.setdefault(key, []).append(var)
-                    want[key] = True
-    for key, ok in want.items():
-        R.check(oid, "THREAD", fm, "mine_block collects %s from tx_deser's result" % key, ok,
-                "mine_block does not take the %s of each transaction from tx_deser" % key)
+        cb = txns[0]
+        hdrs = [c for c in s.calls if c[0] == "bits.blockchain.block_header"]
+        okh = bool(hdrs)
+        for c in hdrs:
+            m = rules.unfz(c[1][2]) if len(c[1]) > 2 else None
+            leaves = rules.unfz(m.args[1][0]) if isinstance(m, T) and m.op == "app" and m.args[0] == "bits.blockchain.merkle_root" else None
+            okh = okh and isinstance(leaves, (list, tuple)) and len(leaves) == n + 1 and all(_one_of(l, ident(t, "txid")) for l, t in zip(leaves, [cb] + txs))
+        R.check(oid, "THREAD", fm, label + ": every header commits to merkle_root([tx_deser(tx)['txid'] for the block's own transactions, coinbase first])", okh,
+                "the header merkle root is not over the txids tx_deser reports for the serialised transactions",
+                example="a block with a segwit transaction and a witness-commitment coinbase")
+        # witness tree and commitment
+        pos, kw = cbs[0][1], cbs[0][2]
+        wm = kw.get("witness_merkle_root_hash", pos[5] if len(pos) > 5 else None)
+        differs = tm.lor([tm.cmp("ne", ident(t, "txid")[1], ident(t, "wtxid")[1]) for t in txs])
+        differs0 = tm.lor([tm.cmp("ne", ident(t, "txid")[0], ident(t, "wtxid")[0]) for t in txs])
+        okw = False
+        wm = rules.unfz(wm)
+        if n == 0:
+            okw = wm is None
+        elif isinstance(wm, T) and wm.op == "ite" and (rules.unfz(wm.args[2]) is None or rules.unfz(wm.args[1]) is None):
+            cond, com = (wm.args[0], rules.unfz(wm.args[1])) if rules.unfz(wm.args[2]) is None else (tm.lnot(wm.args[0]), rules.unfz(wm.args[2]))
+            if not (_same_disjunction(cond, differs) or _same_disjunction(cond, differs0)):
+                com = None
+            inner = None
+            if isinstance(com, T) and com.op == "app" and com.args[0] == "bits.crypto.hash256":
+                inner = rules.unfz(com.args[1][0])
+            elif isinstance(com, T) and com.op == "hash" and com.args[0] == "sha256" and isinstance(rules.unfz(com.args[1]), T) and rules.unfz(com.args[1]).op == "hash":
+                inner = rules.unfz(rules.unfz(com.args[1]).args[1])
+            if isinstance(inner, T) and inner.op == "cat" and len(inner.args) == 2 and inner.args[1] == b"\x00" * 32:
+                root = inner.args[0]
+                leaves = rules.unfz(root.args[1][0]) if isinstance(root, T) and root.op == "app" and root.args[0] == "bits.blockchain.merkle_root" else None
+                okw = isinstance(leaves, (list, tuple)) and len(leaves) == n + 1 and leaves[0] == b"\x00" * 32 and all(_one_of(l, ident(t, "wtxid")) for l, t in zip(leaves[1:], txs))
+        R.check(oid, "THREAD", fm, label + ": coinbase commits to SHA256d(merkle_root([0^32] + wtxids) || 0^32) exactly when some txid differs from its wtxid", okw,
+                "the coinbase's witness commitment is %s" % tm.show(wm)[:300], example="a mempool whose %s transaction is a segwit spend" % ("only" if n == 1 else "last"))
